@@ -4,6 +4,7 @@
     engine on the same scripts.  [init] is the endpoint before [open]; a run
     is any list of local operations and peer actions. *)
 From FV Require Import Conn.Lifecycle Proofs.LifecycleProofs.
+From FV Require Import Base.Bytes Frame.AmqpFrame Conn.WireEvents Proofs.WireEventsProofs.
 
 (** What the endpoint writes over a whole run, for every interleaving of local
     operations and peer behaviour: nothing; or the header; or the header and the
@@ -102,3 +103,30 @@ Example C12_clean_close_with_inflight :
   snd (run init [EOpen; EPHeader; EPOpen; EClose; EPIllegal IFrameUnmapped; EPClose false]) =
   [[WHeader]; [WOpen]; [DOpen ROk]; [WClose]; []; [DClose ROk; WEof]].
 Proof. reflexivity. Qed.
+
+(** ** whatever bytes a frame holds, an open connection reacts in one of four defined ways
+
+    [on_frame_bytes] (Conn/WireEvents.v) composes the frame decoder model with the connection
+    lifecycle model: the bytes after the size field are decoded; a frame that decodes is classified
+    as the engine's on_incoming does for a connection without sessions; a frame that does not decode
+    is a transport error, on which the engine stops at once.  For EVERY byte string: the connection
+    stays open and writes nothing (heartbeat), or writes exactly one close with an error and discards
+    from then on, or answers the peer's close and stops, or stops without writing.  (Run against the
+    real engine on raw frames every run: the `pw` events of the c12 sub.) *)
+Theorem C12_any_frame_on_open_connection :
+  forall fuel bs,
+    let r := on_frame_bytes fuel SOpened bs in
+    (r = (SOpened, [])) \/
+    (exists k, r = (SDiscardProto k WHandle, [WCloseErr k])) \/
+    (exists e, r = (SEnded (RErr e) HLive, [WClose; WEof]) /\ (e = KRemoteClosed \/ e = KRemoteClosedWithError)) \/
+    (r = (SEnded (RErr KTransportError) HLive, [WEof])).
+Proof. exact any_frame_on_open_connection. Qed.
+Print Assumptions C12_any_frame_on_open_connection.
+
+(** ... and once it has closed with an error, nothing more is written whatever else arrives *)
+Theorem C12_after_an_illegal_frame_nothing_is_written :
+  forall fuel k bs,
+    let r := on_frame_bytes fuel (SDiscardProto k WHandle) bs in
+    snd r = [] \/ snd r = [WEof].
+Proof. exact after_an_illegal_frame_nothing_is_written. Qed.
+Print Assumptions C12_after_an_illegal_frame_nothing_is_written.
